@@ -215,7 +215,10 @@ def run_harness(ctx, binary, ops, timeout=1800, args=()):
             if rc == 0:
                 obs.append("harness-protocol-error"); i += 1
             else:
-                obs.append(sanitizer_site(err) if ("Sanitizer" in err or "runtime error" in err) else "crash:rc=%d" % rc)
+                ma = re.search(r"([\w/.]+\.hpp):(\d+): .*Assertion `", err)
+                if "Sanitizer" in err or "runtime error" in err: obs.append(sanitizer_site(err))
+                elif ma: obs.append("assert:%s:%s" % (ma.group(1).split("boost/gil/")[-1], ma.group(2)))
+                else: obs.append("crash:rc=%d" % rc)
                 ctx.last_sanitizer_report = err[-4000:]
                 i += 1
             restarts += 1
